@@ -389,6 +389,10 @@ def BASE(value, base, places=DEFAULT):
             return places
         if places < 0:
             return error.NUM
+    if base < 2 or base > 36:
+        return error.NUM
+    if value < 0:
+        return error.NUM
     if value == 0:
         return '0'
     digits = []
